@@ -4,6 +4,7 @@ package main
 
 import (
 	"fmt"
+	"go/types"
 	"sort"
 	"strings"
 
@@ -54,6 +55,7 @@ func runC14(r *Report, tier string) {
 	r.rule("R14.2", "one curve table: NewKeyEC2 (alg -> curve), the derivation (curve -> alg), algorithmFromEllipticCurve (Go curve -> alg), curveSize (curve -> Go curve), PublicKey and PrivateKey (alg -> Go curve) are restrictions of one bijection P-256 <-> ES256 <-> elliptic.P256, P-384 <-> ES384 <-> P384, P-521 <-> ES512 <-> P521; curveSize is (BitSize(that curve)+7)/8.")
 	r.rule("R14.3", "padding on encode: Key.MarshalCBOR replaces x (and, by an isomorphic arm, y) by make(size-len(v), size) ++ v exactly under kty == EC2, size > 0 and 0 < len(v) < size, with size = curveSize(the key's own curve) and v the coordinate stored under that same label.")
 	r.rule("R14.4", "relaxed length guard: wherever the key decoder / consistency check compares an EC2 coordinate's length with the curve size, it refuses only len > size (never != or <), so keys with trimmed leading zeros stay acceptable.")
+	r.rule("R14.6", "the key decoder's result depends on the input only: on every non-failure exit every field of the receiver has been assigned (a reset followed by assignments, or unconditional assignments); nothing of a previously parsed key survives.")
 	r.rule("R14.5", "same algorithm both ways: Key.Signer and Key.Verifier hand AlgorithmOrDefault(k) and the result of PrivateKey()/PublicKey() to NewSigner/NewVerifier (R15.3).")
 	r.assumes("big.Int SetBytes/Bytes/FillBytes arithmetic; equality of the reconstructed key is a runtime fact")
 
@@ -268,6 +270,42 @@ func runC14(r *Report, tier string) {
 			ok = c != nil && c.S == pr.ctor && c.Args[0].String() == "res<0>(call<"+shortFn(aod)+">($0))" && strings.Contains(c.Args[1].String(), "res<0>(call<(*Key)."+pr.conv+">($0))")
 		}
 		r.ob("R14.5", "Key."+pr.name+":same-algorithm", fn, nil, "object is built for AlgorithmOrDefault(k) and the converted key").check(ok, pr.ctor+"(AlgorithmOrDefault(k), "+pr.conv+"(k))", "Key."+pr.name+" does not end in "+pr.ctor+"(AlgorithmOrDefault(k), "+pr.conv+"(k))")
+	}
+
+	// R14.6: the parsed key is a function of the bytes: at every non-failure
+	// exit of the decoder no field of the receiver still holds (or depends
+	// on) what the receiver held before the call
+	{
+		dec := P.methodOf(keyT, "UnmarshalCBOR")
+		if dec == nil {
+			undecidedf("anchor not found: Key.UnmarshalCBOR")
+		}
+		st := keyT.Underlying().(*types.Struct)
+		nx := 0
+		for _, x := range P.factsOf(dec).exits {
+			if x.kind == exitFailure {
+				continue
+			}
+			nx++
+			var stale []string
+			for i := 0; i < st.NumFields(); i++ {
+				f := st.Field(i).Name()
+				v := P.terms.loadPath(dec.Params[0], []string{f}, x.ret)
+				old := false
+				v.walk(func(u *Term) {
+					if u.Op == "load" {
+						if rk, _ := termLoc(u.Args[0]); rk == "param:0" {
+							old = true
+						}
+					}
+				})
+				if old {
+					stale = append(stale, f)
+				}
+			}
+			r.ob("R14.6", "Key.UnmarshalCBOR:exit:"+exitID(P, dec, x)+":history-free", dec, x.ret, "every field of the parsed key is assigned from the input on this exit").check(len(stale) == 0, fmt.Sprintf("%d fields assigned", st.NumFields()), "field(s) "+strings.Join(stale, ", ")+" can keep the value the Key held before the call")
+		}
+		r.floor("R14.6", nx, 1, "non-failure exits of the key decoder")
 	}
 }
 
@@ -570,6 +608,8 @@ func c14CurveTable(r *Report, keyT interface{ String() string }) {
 
 func mutC14() []mutant {
 	return []mutant{
+		{Name: "key decoder no longer resets the receiver", File: "key.go", Rule: "R14.6",
+			Old: "\t*k = Key{}\n", New: ""},
 		{Name: "EC2() returns y before x", File: "key.go", Quick: true, Rule: "R14.1",
 			Old: "\tx, _ = k.ParamBytes(KeyLabelEC2X)\n\ty, _ = k.ParamBytes(KeyLabelEC2Y)", New: "\tx, _ = k.ParamBytes(KeyLabelEC2Y)\n\ty, _ = k.ParamBytes(KeyLabelEC2X)"},
 		{Name: "PrivateKey sets Y from x", File: "key.go", Rule: "R14.1",
